@@ -60,6 +60,9 @@ mutual
     | failForm (e : String)
     /-- `request.forms` on a malformed multipart body: the shared `errors_map[e]` -/
     | failMultipart (e : String)
+    /-- the module-level helper `redirect(loc)`: it works on the DEFAULT application's live request and
+    response (`Globals.request` / `Globals.response`), whatever application the handler belongs to -/
+    | redirect (loc line : String)
   /-- what the router answered -/
   inductive Route
     | handler (ops : List HOp) (out : Outcome)
@@ -78,6 +81,12 @@ end
 inductive Item
   | serve (r : Req)
   | construct (a : AppId)
+  /-- `app.request[k] = v` on the idle request of an application (outside any request) -/
+  | poke (a : AppId) (k v : String)
+  /-- `app.request.name = v` -/
+  | pokeAttr (a : AppId) (name v : String)
+  /-- look at the idle request of an application: `dict(app.request.environ)` -/
+  | idle (a : AppId)
 
 /-! ## small helpers -/
 
@@ -152,6 +161,11 @@ def initWrapper (a : AppId) (o : Obj) (cls : Cls) (k : Prog) : Prog :=
   .step a (.initHead o) fun _ =>
     (propsOf cls).foldr (fun p k => .step a (.initNone o p) fun _ => k) k
 
+/-- how the object an environ belongs to shows in `environ['ombott.request']` -/
+def ownerMark (a : AppId) : Obj → String
+  | .request => "<request " ++ toString a ++ ">"
+  | _ => "<copy>"
+
 /-- `BaseRequest.__init__(environ)` on object `o`, the environ being in register `env` -/
 def requestInit (a : AppId) (o : Obj) (env : Reg) (k : Prog) : Prog :=
   initWrapper a o .request <|
@@ -160,7 +174,7 @@ def requestInit (a : AppId) (o : Obj) (env : Reg) (k : Prog) : Prog :=
   .step a (.fset o "_env_get" (.reg env)) fun _ =>
   -- self.environ['ombott.request'] = self
   .step a (.fget o "environ" rTmp) fun _ =>
-  .step a (.dOp rTmp (.set "ombott.request" (.str "<request>"))) fun _ => k
+  .step a (.dOp rTmp (.set "ombott.request" (.str (ownerMark a o)))) fun _ => k
 
 /-- `BaseResponse.__init__()` on `app.response` -/
 def responseInit (a : AppId) (k : Prog) : Prog :=
@@ -664,6 +678,24 @@ def failMultipartProg (a : AppId) (k : Prog) : Prog :=
   .step a (.dOp rWsgiHd (.set "ombott.request.forms" (.str "<forms>"))) fun _ =>
   reqBodyObj a .request 2 fun _ => k
 
+/-- the default application (`ombott.Globals.app`) -/
+def defaultApp : AppId := 0
+
+/-- `redirect(loc)`: `code = 303 if request.get('SERVER_PROTOCOL') == 'HTTP/1.1' else 302;
+res = response.copy(cls=HTTPResponse); res.status = code; res.body = '';
+res.headers['Location'] = urljoin(request.url, loc); raise res` with `request`, `response` the
+default application's objects -/
+def redirectProg (loc line : String) (k : Out → Prog) : Prog :=
+  let g := defaultApp
+  envGet g .request "SERVER_PROTOCOL" fun _ =>
+  -- response.copy(): self.status, self.headers.copy().dict, self._cookies
+  .step g (.fget .response "_status_line" rTmp) fun _ =>
+  .step g (.hdGet rHd) fun _ =>
+  .step g (.dOp rHd .items) fun ri =>
+  .step g (.fget .response "_cookies" rCookies) fun _ =>
+  reqUrl g .request 0 fun _ =>
+  k (.resp 303 line "" (hdrLines (match ri with | .items d => d | _ => []) ++ [("Location", "http://h" ++ loc)]))
+
 /-- the handler's last statement (a property read that raises) and what `_handle` returns -/
 def outcome (a : AppId) : Outcome → (Out → Prog) → Prog
   | .ret s, k => k (.text s)
@@ -675,6 +707,7 @@ def outcome (a : AppId) : Outcome → (Out → Prog) → Prog
   | .failJson e, k => failJsonProg a (k (.err (.shared e)))
   | .failForm e, k => failFormProg a (k (.err (.shared e)))
   | .failMultipart e, k => failMultipartProg a (k (.err (.shared e)))
+  | .redirect loc line, k => redirectProg loc line k
 
 /-- `app(environ, start_response)` for one request; `fuel` bounds the nesting depth -/
 def serve : Nat → Req → Prog → Prog
@@ -722,19 +755,50 @@ def HOp.isLocal : HOp → Bool
   | .construct _ => false
   | _ => true
 
+/-- an outcome that stays inside application `a` (`redirect()` works on the default application) -/
+def Outcome.LocalTo (a : AppId) : Outcome → Prop
+  | .redirect _ _ => a = defaultApp
+  | _ => True
+
 /-- a request of application `a` whose handler does not call into or construct another application -/
 def Req.LocalTo (a : AppId) : Req → Prop
-  | .mk b _ _ _ before after (.handler ops _) =>
+  | .mk b _ _ _ before after (.handler ops out) =>
     b = a ∧ (∀ op ∈ before, op.isLocal = true) ∧ (∀ op ∈ after, op.isLocal = true) ∧
-      ∀ op ∈ ops, op.isLocal = true
+      (∀ op ∈ ops, op.isLocal = true) ∧ out.LocalTo a
   | .mk b _ _ _ before after _ =>
     b = a ∧ (∀ op ∈ before, op.isLocal = true) ∧ (∀ op ∈ after, op.isLocal = true)
 
 def maxNesting : Nat := 4
 
+/-- `BaseRequest.__setitem__(key, value)` on `app.request` -/
+def pokeProg (a : AppId) (key v : String) (k : Prog) : Prog :=
+  envGet a .request "ombott.request.readonly" fun _ =>
+  .step a (.fget .request "environ" rTmp) fun _ =>
+  .step a (.dOp rTmp (.get key)) fun r =>
+    if r == .val (.str v) then k
+    else
+      .step a (.dOp rTmp (.set key (.str v))) fun _ =>
+      .step a (.fget .request "environ" rTmp) fun _ =>
+      (envChangedPops key).foldr (fun c k => .step a (.dOp rTmp (.pop ("ombott.request." ++ c))) fun _ => k) k
+
+/-- `BaseRequest.__setattr__(name, value)` for a name that is not a slot -/
+def pokeAttrProg (a : AppId) (name v : String) (k : Prog) : Prog :=
+  .step a (.fget .request "environ" rTmp) fun _ =>
+  .step a (.dOp rTmp (.set ("ombott.request.ext." ++ name) (.str v))) fun _ => k
+
+/-- `sorted(app.request.environ.items())` -/
+def idleProg (a : AppId) (k : Prog) : Prog :=
+  .step a (.fget .request "environ" rTmp) fun _ =>
+  .step a (.dOp rTmp .items) fun r =>
+    let items : Dict := match r with | .items d => d | _ => []
+    .emit a ("i:" ++ ";".intercalate (sortStrings (items.map fun kv => kv.1 ++ "=" ++ showPVal kv.2))) k
+
 def itemProg : Item → Prog → Prog
   | .serve r, k => serve maxNesting r k
   | .construct a, k => constructApp a k
+  | .poke a key v, k => pokeProg a key v k
+  | .pokeAttr a name v, k => pokeAttrProg a name v k
+  | .idle a, k => idleProg a k
 
 /-- the program of a thread -/
 def threadProg (items : List Item) : Prog := items.foldr itemProg .done
